@@ -375,7 +375,8 @@ impl<'a, 'b> Mul<&'b Number> for &'a Substance {
     fn mul(self, other: &'b Number) -> Self::Output {
         Ok(Substance {
             amount: (&self.amount * other)
-                .ok_or_else(|| "Multiplication of numbers should not fail".to_owned())?,
+                .filter(|res| res.unit.powers_in_range())
+                .ok_or_else(|| "Unit exponent is too large".to_owned())?,
             properties: self.properties.clone(),
         })
     }
@@ -386,7 +387,15 @@ impl<'a, 'b> Div<&'b Number> for &'a Substance {
 
     fn div(self, other: &'b Number) -> Self::Output {
         Ok(Substance {
-            amount: (&self.amount / other).ok_or_else(|| "Division by zero".to_owned())?,
+            amount: (&self.amount / other)
+                .ok_or_else(|| "Division by zero".to_owned())
+                .and_then(|res| {
+                    if res.unit.powers_in_range() {
+                        Ok(res)
+                    } else {
+                        Err("Unit exponent is too large".to_owned())
+                    }
+                })?,
             properties: self.properties.clone(),
         })
     }
